@@ -460,7 +460,7 @@ class GroupEffectsMatrix:
             term_slice = self.slices[name]
             term_slice_width = get_slice_width(term_slice)
             # Number of columns the expr has within each group
-            levels_n = term.data.shape[1] // len(groups)
+            levels_n = term.data.shape[1] // max(len(groups), 1)
             if term_slice_width != len(groups) * levels_n:  # Has extra groups
                 assert term_slice_width == (len(groups) + 1) * levels_n, (
                     "It should only have one extra group"
